@@ -20,11 +20,16 @@ static void one_A(int si, int li, unsigned A, struct res *r, long x) {
     /* the same abstract seed through load or, for every fourth coin, through create with argument bits above the three feature bits set
      * (documented as ignored) plus crypt with a zero mask for the encrypted flag */
     polyseed_data *s = NULL;
-    if ((A & 3) == 1 && !(SEEDS[si].features & 8)) { E_create_high_bits = (A & 4) ? 0xFFFFFFF8u : 0x8; s = seed_via_create(&SEEDS[si]); E_create_high_bits = 0; }
+    if ((A & 3) == 1 && !(SEEDS[si].features & 8)) { extern uint64_t E_create_clock_shift; E_create_high_bits = (A & 4) ? 0xFFFFFFF8u : 0x8; E_create_clock_shift = (A & 8) ? (uint64_t)(1 + (A >> 4) % 3) * 1024 * R_STEP : 0;      /* clocks one to three ranges later: same month index */
+        s = seed_via_create(&SEEDS[si]); E_create_high_bits = 0; E_create_clock_shift = 0; }
     if (!s) s = seed_from_ref(&SEEDS[si]);
     r->calls++;
     if (!s) { res_viol(r, "c05:setup", "", "cannot load seed"); return; }
-    polyseed_str phA, ph0; uint8_t st0[32]; polyseed_store(s, st0);
+    polyseed_str phA, ph0; uint8_t st0[32], stm[32]; polyseed_store(s, st0); ref_storage(&SEEDS[si], stm);
+    if (memcmp(st0, stm, 32)) { res_viol(r, "c05:setup-seed", "", "the seed under test (made by %s) does not serialise to the model seed", (A & 3) == 1 ? "create" : "load"); polyseed_free(s); ledger_drop_all(); return; }
+    /* the phrase for A restores under exactly the seed's own user features, too (nothing else is needed to read it back) */
+    { polyseed_str pm; polyseed_encode(s, lang, (polyseed_coin)A, pm); polyseed_enable_features(SEEDS[si].features & 7); polyseed_data *dm = NULL; int sm = polyseed_decode_explicit(pm, (polyseed_coin)A, lang, &dm); polyseed_enable_features(7); r->calls += 2;
+      if (sm == POLYSEED_OK) polyseed_free(dm); else { char rp[120], hh[40]; hex(SEEDS[si].secret, 19, hh); sprintf(rp, "case %s %u %u %d %u %u", hh, SEEDS[si].birthday, SEEDS[si].features, li, A, A); res_viol(r, "c05:samecoin-own-features", rp, "phrase for coin %u decoded for the same coin with exactly the seed's user features enabled: status %d", A, sm); } }
     polyseed_encode(s, lang, (polyseed_coin)A, phA); polyseed_encode(s, lang, 0, ph0); r->calls += 3;
     char rep[200], key[100], h[40]; hex(SEEDS[si].secret, 19, h);
     /* word-wise difference against the coin-0 phrase */
